@@ -37,7 +37,7 @@ def shard_setup(obs) -> None:
 
 
 def gen_cases(tier: str, seed: int):
-    n = {"quick": 400, "thorough": 5000}[tier]
+    n = {"quick": 400, "thorough": 40000}[tier]
     rng = np.random.default_rng([seed, 5])
     # directed: every system class with every constant metric at least once
     for k in zoo.SYSTEMS:
